@@ -34,7 +34,7 @@ CHECKS["C02"] = dict(
 _UDP_GEN = ("rapid-generated datagram histories through the real PacketHandler on a real dual-stack UDP socket: 1..7 client sockets on 127.x.y.z/::1 "
             "(shared IPs, distinct ports), 1..4 scripted targets on IPv4 and IPv6 loopback, key lists with all ciphers and duplicated material; operations: "
             "send (valid / truncated / bit-flipped / random / bad address type / short address / unsendable port 0 / a destination the world's policy refuses; any key of the universe), reply from a contacted target, "
-            "datagram from a never-contacted sender, also from this host's link-local address (zoned source) when it has one (replies up to 65507 bytes: beyond what one relayed datagram can carry delivery is optional, but never partial), expiry, key-list update under the running loop (with a former client coming back with a dropped key). Every operation's effect is awaited (fence datagram for must-not-happen) before the next. ")
+            "datagram from a never-contacted sender, also from this host's link-local address (zoned source) when it has one (replies up to 65507 bytes: beyond what one relayed datagram can carry delivery is optional, but never partial), expiry, key-list update under the running loop (with a former client coming back with a dropped key); in the expiry variants a slow sink for the removal report (0/5/20 ms) keeps the teardown window open. Every operation's effect is awaited (fence datagram for must-not-happen) before the next. ")
 
 CHECKS["C03"] = dict(
     level="exploration",
@@ -79,7 +79,8 @@ CHECKS["C05"] = dict(
 
 CHECKS["C06"] = dict(
     level="exploration",
-    rule="(FakeTime) rapid-generated probes against the real StreamHandler with the production 59 s timeout inside a testing/synctest bubble per case: "
+    rule="(Real, added later) the listener is closed 40..150 ms into a batch once every probe connection was accepted; probe kind replay_burst = 2..8 identical copies of a fresh handshake at once with the replay history on (at most one reaches a target, all stay open); cases run with the garbage collector off. (FakeTime, added later) the serving context is cancelled at a generated fake time. " +
+         "(FakeTime) rapid-generated probes against the real StreamHandler with the production 59 s timeout inside a testing/synctest bubble per case: "
          "random bytes of length 0..70000 (biased to 49/50/51 and salt+18 boundaries), valid streams truncated at any offset, single bit flips anywhere in the first 130 bytes, "
          "foreign-key streams, exact replays (cache on), reflected server salts, bad address type, corrupted address chunk, incomplete address; key lists of 1..12 (thorough 100) keys, "
          "all ciphers; client stays open / FINs at a generated instant / keeps trickling bytes; generated write segmentation with fake-time gaps. Deadlines compared with ==. "
@@ -125,7 +126,8 @@ CHECKS["C20"] = dict(
 
 CHECKS["C17"] = dict(
     level="exploration",
-    rule="(Ledger) rapid-generated histories over the exported ServiceMetrics API of the real collector inside a testing/synctest bubble: 1..4 client IPs (v4, v6, mapped) x 1..3 keys; "
+    rule="(Ledger, added later) the location database fails for some clients (IPv6, odd last byte) in a third of the cases. (Concurrent) a wedge is the absence of progress for 15 s. " +
+         "(Ledger) rapid-generated histories over the exported ServiceMetrics API of the real collector inside a testing/synctest bubble: 1..4 client IPs (v4, v6, mapped) x 1..3 keys; "
          "tcpOpen / tcpAuth / tcpClose / udpAdd / udpRemove / advance(0..2 h) / scrape; oracle = ledger of open intervals per (IP, key), checked at every scrape (1 us per reported segment), "
          "per-location total = per-key total, counters monotone. Non-trivial = a scrape inside >=2 overlapping tunnels of one (IP,key), or close -> scrape -> reopen. "
          "(Concurrent) generated workloads under the real clock: 2..12 worker goroutines opening/authenticating/closing tunnels for client pools of size 1..8 or all-new clients, fake location database with "
@@ -137,7 +139,8 @@ CHECKS["C17"] = dict(
 
 CHECKS["C12"] = dict(
     level="exploration",
-    rule="rapid-generated operation sequences on one ListenerManager address with 1..6 handles, for stream and for packet listeners on real sockets: acquire / acquire while another socket holds the address (must fail cleanly) / close(handle) / call(handle) "
+    rule="(Packet, added later) the shared socket is on 127.0.0.1 or [::1] and every datagram is padded to 0..65527 bytes (65507 on IPv4); a delivery must carry the datagram's full size. " +
+         "rapid-generated operation sequences on one ListenerManager address with 1..6 handles, for stream and for packet listeners on real sockets: acquire / acquire while another socket holds the address (must fail cleanly) / close(handle) / call(handle) "
          "(an accept or read left pending in its own goroutine) / send 1..3 connections or datagrams carrying unique tokens / settle; each case is executed 4 times because deliveries racing with closes are "
          "schedule-dependent. Invariants over the history: a token is delivered at most once, and exactly once while an open handle has a call pending; never to a call started after that handle's Close returned; "
          "pending and later calls on a closed handle return net.ErrClosed; after the last close the address can be bound again, no goroutine of the shared listener is left, and connections accepted by the socket "
@@ -195,7 +198,166 @@ CHECKS["C11"] = dict(
 
 CHECKS["C14"] = dict(
     level="exploration",
-    rule="(Deadlines) rapid-generated histories of write(DNS|non-DNS, the outbound send succeeding or failing) / reply(from port 53|other) / pause on one NAT entry inside the in-package executor (package service) whose fake outbound socket records every "
+    rule="(Deadlines, added later) a reply may be held in the relay to the client while the next write happens, the relay of a reply to the client may fail (that reply is lost, nothing else), and nothing may be torn down before the history asks for expiry; a deadline may be restored up to the latest instant any write so far allows. (Service) the assembled NewShadowsocksService with and without WithNatTimeout: default five minutes, a configured 300-500 ms timeout expires the association. " +
+         "(Deadlines) rapid-generated histories of write(DNS|non-DNS, the outbound send succeeding or failing) / reply(from port 53|other) / pause on one NAT entry inside the in-package executor (package service) whose fake outbound socket records every "
+         "SetReadDeadline; timeouts from {2 s .. 5 min} incl. 16999/17000/17001 ms. After every write the deadline is >= start-of-write + its timeout (17 s for port 53) and never moves earlier; the only permitted "
+         "shortening is the fast close (exactly one write so far, it was DNS, first response from a port-53 sender), which must then happen; on expiry: removed once, socket closed, table empty. "
+         "(Lifecycle, Long) batches of 4..24 (thorough 64) concurrent clients against the real PacketHandler on real sockets with NAT timeouts of 300-600 ms and scripts plain / dns-single / dns-multi / mixed / "
+         "dns-then-plain / plain-reply-from-53 / recreate / unsendable (first datagram cannot be sent, client stays idle): alive before last-send + timeout (client-side instant, sound), removed and outbound port released within +2 s, single-DNS associations close right after the "
+         "response, DNS associations still alive at +1.5 s (Long: +16.5 s) despite the short timeout, shutdown reclaims everything (goroutines/sockets back to baseline). "
+         "Non-trivial = history with both DNS and non-DNS writes or a fast-close candidate (Deadlines); every batch (Lifecycle).",
+    assumptions=["the fake outbound socket does not follow the wall clock: only an already-due deadline expires it", "real-time upper bounds are 2-3 s"],
+    units=[unit("props", ["Deadlines"], "C14", needs=["inpkg-service"]), unit("props", ["Lifecycle", "Long", "Service"], "C14")],
+)
+
+CHECKS["C16"] = dict(
+    level="exploration",
+    rule=_UDP_GEN + "After the history the listener is shut down and the recorded UDPMetrics/UDPConnMetrics call log is compared, per association and in order, "
+         "with the sizes and outcomes observed at the client and target sockets; the real Prometheus collector sits behind the recorder and what it exports "
+         "(udp_nat_entries_added/removed, data_bytes{proto=udp} per key and direction, udp_packets_from_client_per_location per status) must add up to the same calls. "
+         "Non-trivial = an association with >=2 client datagrams or >=1 reply. "
+         "Distinct = canonical case JSON.",
+    assumptions=["interleaving between client-datagram and reply reports of one association is not asserted (two goroutines)"],
+    units=[unit("props", ["Metrics", "MetricsExpiry"], "C16")],
+)
+
+CHECKS["C05"] = dict(
+    level="exploration",
+    rule="(Func) rapid-generated addresses: near (+-3) the first/last address of every IANA special-purpose block, inside blocks, uniformly random IPv4/IPv6, "
+         "in 4-byte, 16-byte and IPv4-mapped forms, judged by an independent prefix-table oracle (must-reject / must-accept / not judged). "
+         "(Sweep) enumeration of IPv4: quick = every block boundary +-300 and a stride of 4099; thorough = all 2^32 addresses in both byte forms (exhaustive for that sub-domain). "
+         "(TCP, UDP) generated SOCKS destinations through the default dialer/validator: IPv4/IPv6/mapped literals, empty and IP-literal domains (incl. zoned link-local), "
+         "hostnames answered by an in-process DNS with 0..4 mixed answers, non-local private/CGNAT/multicast literals; UDP: the forbidden datagram at position 1..7 of a live association. "
+         "(Shared) one packet handler serving 2..4 UDP sockets at once, clients on even sockets flooding an allowed destination and on odd sockets a refused one (same port): nothing may reach the refused one. "
+         "Sinks are bound on every local forbidden address; only an observed arrival is a violation; the local allowed address 192.0.2.2 is the positive control. "
+         "Non-trivial = address within 3 of a block boundary or in mapped/16-byte form (Func); must-reject or boundary address (Sweep, distinct by construction); "
+         "mapped/zoned/IP-literal-domain/empty/multi-answer destination or forbidden datagram at position >=2 (TCP/UDP).",
+    assumptions=["non-local forbidden destinations have no sink: judged by reported status only", "address classes available on this host are detected at run time"],
+    units=[unit("props", ["Func", "TCP", "UDP", "Shared"], "C05"), unit("props", ["Sweep"], "C05", shards=(4, 16), timeout=(240, 3000))],
+)
+
+CHECKS["C06"] = dict(
+    level="exploration",
+    rule="(Real, added later) the listener is closed 40..150 ms into a batch once every probe connection was accepted; probe kind replay_burst = 2..8 identical copies of a fresh handshake at once with the replay history on (at most one reaches a target, all stay open); cases run with the garbage collector off. (FakeTime, added later) the serving context is cancelled at a generated fake time. " +
+         "(FakeTime) rapid-generated probes against the real StreamHandler with the production 59 s timeout inside a testing/synctest bubble per case: "
+         "random bytes of length 0..70000 (biased to 49/50/51 and salt+18 boundaries), valid streams truncated at any offset, single bit flips anywhere in the first 130 bytes, "
+         "foreign-key streams, exact replays (cache on), reflected server salts, bad address type, corrupted address chunk, incomplete address; key lists of 1..12 (thorough 100) keys, "
+         "all ciphers; client stays open / FINs at a generated instant / keeps trickling bytes; generated write segmentation with fake-time gaps. Deadlines compared with ==. "
+         "(Real) batches of up to 32 concurrent probes over loopback TCP with a 250 ms timeout, plus post-dial corruption (length block / length tag / payload / payload tag of a mid-relay chunk, more client data following) "
+         "against a target that never closes and against an ordinary target that closes when the proxy half-closes. "
+         "Non-trivial = probe derived from a valid stream (truncate/flip/replay/reflect/foreign key/invalid-after-auth), or random bytes of length 48..52 or >66. "
+         "Complete valid requests produced by a mutation (e.g. a flip beyond the header) are classified by the reference codec and not judged.",
+    assumptions=["fake-time engine runs under go1.26.8 timer semantics (asynctimerchan=0)", "real-socket upper bounds are reported only if they reproduce 3 times in isolation"],
+    units=[unit("props26", ["FakeTime"], "C06"), unit("props", ["Real"], "C06")],
+)
+
+CHECKS["C07"] = dict(
+    level="exploration",
+    rule="(Cache) rapid state machine on NewReplayCache(n), n in {0,1,2,3,4,5,8,16,50,1000,19999,20000}: add(label) / resize(m) / burst(K concurrent copies of one handshake), labels from alphabets of "
+         "2..30 plus fresh ones so repeats at every distance occur; labels map injectively to (key id, 32/24/16-byte salt). Model = list of checks with the capacity in force; a repeat at distance d <= min capacity "
+         "over the interval must be refused, a never-seen label must be accepted (an unexplained refusal is re-tried under two re-randomisations of all salts), a burst has exactly one winner. "
+         "(Server) two StreamHandlers with different key lists sharing one cache, handshakes presented on either. "
+         "Non-trivial = a repeat at distance within +-1 of the capacity, a burst with the cache enabled, or a handshake presented on both services. Distinct = canonical case JSON.",
+    assumptions=["the 32-bit checksum construction is not modelled: collisions are handled by re-randomisation (rule 4)", "(Reload) the real main package with -replay_history N in the executor: two retained services sharing one key, handshakes presented on either, interleaved with generated reloads; non-trivial = a refused replay whose earlier presentation was on the other service or before a reload"],
+    units=[unit("props", ["Cache", "Server"], "C07"), unit("props", ["Reload"], "C07", needs=["inpkg-main"])],
+)
+CHECKS["C08"] = dict(
+    level="exploration",
+    rule="rapid-generated runs of 2..40 (thorough 300) relayed connections over key lists with all four ciphers, then 1..12 reflections of recorded server->client streams presented as client streams "
+         "(verbatim / truncated at 50..120 / extended), replay cache on and off. All server salts pairwise distinct; reflections for salts >= 20 bytes must end ERR_REPLAY_SERVER with no dial, no bytes, probe report. "
+         "(Concurrent) 2..16 goroutines relay 20..300 connections each under the same 1..3 keys at once (one salt generator serves all connections of a key); every recorded response must decrypt, carry a distinct salt and be refused when reflected. "
+         "Non-trivial = at least one reflection under a cipher with a salt of >= 20 bytes. Distinct = canonical case JSON.",
+    assumptions=["aes-128-gcm (16-byte salt) is exempt as the statement says", "in-memory connections"],
+    units=[unit("props", ["Salts", "Concurrent"], "C08", crash_is_violation=True)],
+)
+CHECKS["C20"] = dict(
+    level="exploration",
+    rule="(Class) rapid-generated client addresses (block boundaries of every special-purpose block, mapped, zoned, 4/16-byte, TCP/UDP/nil/port-less/garbage/hostname forms) x database behaviours "
+         "(disabled, hit, empty answer, error) through GetIPInfoFromAddr/IP with a recording fake database; oracle by class alone from independent prefix tables. "
+         "(Expo) generated traffic histories fed to the real collector in a pedantic registry from two client addresses of one class: no series name/label contains any textual form of the client IP or its ports, "
+         "one location label per client across all families, and the two runs yield identical series and non-timing values. "
+         "(Multi) 2..5 clients (several global IPv6, IPv4, mapped, local) interleaved in one history against a database that answers by address: per location label the gathered counts must equal the model counts, "
+         "so a label can depend on nothing but the client's own address. Non-trivial = non-plain address form, non-global or mapped address, or non-hit database (Class); history with >=2 operations (Expo); "
+         ">=2 global IPv6 clients or >=3 label groups (Multi).",
+    assumptions=["'non-global' = loopback/unspecified/multicast/link-local/broadcast (the code's and existing tests' meaning; RFC1918 is looked up)", "zoned addresses may be XA or XL"],
+    units=[unit("props", ["Class", "Expo", "Multi"], "C20")],
+)
+
+CHECKS["C17"] = dict(
+    level="exploration",
+    rule="(Ledger) rapid-generated histories over the exported ServiceMetrics API of the real collector inside a testing/synctest bubble: 1..4 client IPs (v4, v6, mapped) x 1..3 keys; "
+         "tcpOpen / tcpAuth / tcpClose / udpAdd / udpRemove / advance(0..2 h) / scrape; oracle = ledger of open intervals per (IP, key), checked at every scrape (1 us per reported segment), "
+         "per-location total = per-key total, counters monotone. Non-trivial = a scrape inside >=2 overlapping tunnels of one (IP,key), or close -> scrape -> reopen. "
+         "(Concurrent) generated workloads under the real clock: 2..12 worker goroutines opening/authenticating/closing tunnels for client pools of size 1..8 or all-new clients, fake location database with "
+         "0..50 us latency, 1..4 goroutines gathering continuously, and burst workloads in which all workers are one client and start each round together; process must stay alive, Gather never errors, counters never decrease, final totals lie in the interval computed from the workers' timestamps. "
+         "Every concurrent workload counts as non-trivial; it is journalled before it runs so that a process death yields its replay file.",
+    assumptions=["fake-time engine: Go 1.26 timer semantics", "schedules are sampled, not enumerated"],
+    units=[unit("props26", ["Ledger"], "C17"), unit("props", ["Concurrent"], "C17", crash_is_violation=True, wedge_is_violation=True)],
+)
+
+CHECKS["C12"] = dict(
+    level="exploration",
+    rule="(Packet, added later) the shared socket is on 127.0.0.1 or [::1] and every datagram is padded to 0..65527 bytes (65507 on IPv4); a delivery must carry the datagram's full size. " +
+         "rapid-generated operation sequences on one ListenerManager address with 1..6 handles, for stream and for packet listeners on real sockets: acquire / acquire while another socket holds the address (must fail cleanly) / close(handle) / call(handle) "
+         "(an accept or read left pending in its own goroutine) / send 1..3 connections or datagrams carrying unique tokens / settle; each case is executed 4 times because deliveries racing with closes are "
+         "schedule-dependent. Invariants over the history: a token is delivered at most once, and exactly once while an open handle has a call pending; never to a call started after that handle's Close returned; "
+         "pending and later calls on a closed handle return net.ErrClosed; after the last close the address can be bound again, no goroutine of the shared listener is left, and connections accepted by the socket "
+         "but handed to nobody are closed (EOF/RST, not a hang). Non-trivial = a close while deliveries are in flight or calls are pending, deliveries spread over >=2 handles, or re-acquisition after full release.",
+    assumptions=["interleavings are sampled by repetition, not enumerated", "virtual packet connections are closed at most once (documented precondition)"],
+    units=[unit("props", ["Stream", "Packet", "Churn"], "C12")],
+)
+
+CHECKS["C13"] = dict(
+    level="exploration",
+    rule="rapid-generated plans for 2..12 goroutines, each a list of 1..8 ListenStream(a) / ListenPacket(a) / Close(own handle) operations over 1..3 addresses on one ListenerManager (real sockets), "
+         "biased to listen-then-close so that the last close of an address races with listens on it; every fourth case starts each repetition with listens on an address another socket holds (they must fail and leave the manager usable); "
+         "every case is repeated 50 times with a fresh manager and fresh ports. "
+         "Oracle: all calls return within a 5 s watchdog and succeed (an 'address already in use' on a socket this process itself still holds means the manager lost track of it), and a final sequential "
+         "listen+close on every address succeeds. On a watchdog hit the signature is derived from the goroutines blocked on a mutex in listeners.go. "
+         "Non-trivial = at least two goroutines operate on the same address and kind. Distinct = canonical case JSON.",
+    assumptions=["random schedules: the ABBA cycle fixed in /repo was hit in about 2% of racing pairs, so 50 repetitions per case give overwhelming detection probability for it; absence of other cycles is not established"],
+    units=[unit("props", ["Deadlock"], "C13", wedge_is_violation=True)],
+)
+
+_CFG_GEN = ("rapid-generated configurations rendered to YAML and loaded by the real RunOutlineServer in an executor process: 0..4 services x 1..4 listeners (tcp/udp on 127.0.0.1 and [::1], "
+            "ports from a per-case table of free ports) x 1..6 keys from a universe of 2..8 keys (all four ciphers, duplicated material inside a service under different ids, the same material in several services, "
+            "per-service id aliases), 0..2 legacy ports with 1..4 legacy keys, both formats mixed. ")
+CHECKS["C09"] = dict(
+    level="exploration",
+    rule=_CFG_GEN + "For every (endpoint, key material of the universe) pair the tester connects / sends a datagram encoded with that key and reads the executor's metric events for its own client port: "
+         "authenticated iff the material belongs to the owning service (legacy: that port), attributed to the first id with that material in the service (legacy: any such id on the port); UDP attribution uses the "
+         "local allowed address 192.0.2.2 when present. (Respelled) two owners naming one socket in different spellings (0.0.0.0/[::], 127.0.0.1/[::ffff:127.0.0.1], [::1]/[0:0:0:0:0:0:0:1], legacy port/wildcard service): "
+         "refused, or if loaded the socket serves the keys of one owner only, every time (6 probes per key). Non-trivial = >=2 services/legacy ports, or a duplicated material inside a service. Distinct = canonical case JSON.",
+    assumptions=["destination policy keeps probes from relaying: authentication is observed through the metric events", "a configuration that fails on a port another process took is discarded, never reported"],
+    units=[unit("props", ["Config", "Respelled"], "C09", needs=["inpkg-main"])],
+)
+CHECKS["C10"] = dict(
+    level="fault_enumeration",
+    rule=_CFG_GEN + "A case is 1..6 reload attempts after an initial load, each with a fault from {none, file missing, malformed YAML, unknown listener type, hostname address, duplicate listener, "
+         "bad cipher in service i key j, bad cipher in legacy key j, listener j of service i unbindable (the tester holds the port)} with i, j generated, so every stage at which loading can fail is reached, "
+         "including after listeners of the new generation were acquired. In every fifth case the reloads are triggered the way operators do it: the file the server was started with is rewritten and the "
+         "process gets SIGHUP (the outcome is read from the server's log, else from what is served within a bound). After every attempt: loadConfig fails iff a fault was injected, then the probe matrix over the union of all endpoints ever mentioned x all key "
+         "materials: listening <=> in the last loaded configuration, authenticates <=> configured there. After Stop: every endpoint closed and the server's goroutines and sockets back to baseline. "
+         "Non-trivial = a faulted attempt whose failure point lies after >=1 listener of the new generation was acquired, followed by >=1 further attempt. ('unreadable file' is not generated: the tests run as root.)",
+    assumptions=["one executor process per case", "fault 'unreadable file' cannot be produced as root"],
+    units=[unit("props", ["Reload"], "C10", needs=["inpkg-main"])],
+)
+
+CHECKS["C11"] = dict(
+    level="exploration",
+    rule=_CFG_GEN + "A case is an initial configuration and 1..6 reloads, each a freshly generated configuration to which one retained service (TCP+UDP listener on one address, key 'shared' first) is added. "
+         "1..8 hammering goroutines connect continuously with the retained key (generated pacing), 0..3 goroutines send datagrams from never-reused local ports, and 0..4 relays (idle / mid-transfer / half-closed, "
+         "0..40 KB before and 1..200 KB after the reloads, target on the local allowed address 192.0.2.2) are opened before the first reload. Oracle: no dial refused or reset; each connection has exactly one "
+         "open/close report pair and authenticates as 'shared'; each datagram is processed at most once and authenticates; every relay completes byte-for-byte with status OK. "
+         "Non-trivial = a hammer connection whose lifetime overlaps a reload, or a relay that outlives one. Distinct = canonical case JSON.",
+    assumptions=["timings are sampled by hammering, not enumerated", "relays need a local address the default policy allows; skipped (recorded) otherwise", "unprocessed datagrams are counted inconclusive, not violations"],
+    units=[unit("props", ["Hammer"], "C11", needs=["inpkg-main"])],
+)
+
+CHECKS["C14"] = dict(
+    level="exploration",
+    rule="(Deadlines, added later) a reply may be held in the relay to the client while the next write happens, the relay of a reply to the client may fail (that reply is lost, nothing else), and nothing may be torn down before the history asks for expiry; a deadline may be restored up to the latest instant any write so far allows. (Service) the assembled NewShadowsocksService with and without WithNatTimeout: default five minutes, a configured 300-500 ms timeout expires the association. " +
+         "(Deadlines) rapid-generated histories of write(DNS|non-DNS, the outbound send succeeding or failing) / reply(from port 53|other) / pause on one NAT entry inside the in-package executor (package service) whose fake outbound socket records every "
          "SetReadDeadline; timeouts from {2 s .. 5 min} incl. 16999/17000/17001 ms. After every write the deadline is >= start-of-write + its timeout (17 s for port 53) and never moves earlier; the only permitted "
          "shortening is the fast close (exactly one write so far, it was DNS, first response from a port-53 sender), which must then happen; on expiry: removed once, socket closed, table empty. "
          "(Lifecycle, Long) batches of 4..24 (thorough 64) concurrent clients against the real PacketHandler on real sockets with NAT timeouts of 300-600 ms and scripts plain / dns-single / dns-multi / mixed / "
